@@ -6,8 +6,9 @@
    The reader returns  Accept forest | Reject | Ambiguous.  Ambiguous is returned on the constructs the
    property's quantifier excludes (DESIGN.md section 5, C02):
      (1) a comment opener (two slashes, or slash star) inside an unquoted token (at an index > 0);
-     (2) in the leading blanks of a continuation line of a double-quoted string, a tab that starts at or
-         before the column of the opening quote and ends beyond it;
+     (2) in the leading blanks of a continuation line of a double-quoted string (once the blanks before
+         its line break, which are stripped anyway, are set aside), a tab that starts at or before the
+         column of the opening quote and ends beyond it;
      (3) inside a double-quoted string, an escape that produces a blank (backslash t; in a pattern
          argument also backslash followed by a space or tab), then zero or more literal blanks, then a
          literal line break;
